@@ -47,3 +47,20 @@ Theorem C04_nonvacuous :
   /\ parse_rows [RowQ [97]%N; RowSkip; RowEnd KGroup] = PErr (UnmatchedEnd 4).
 Proof. vm_compute. repeat split; reflexivity. Qed.
 Print Assumptions C04_nonvacuous.
+
+(* composition of the stages for the structural fragment (questions, groups, repeats): the rows of a balanced sheet are parsed into
+   the nesting the grammar dictates; the primary instance built from it, written by the compact writer and read back by the independent
+   XML parser, has exactly the shape of the instance tree (tags, jr:template markers, children in order); and its live nodes, in
+   document order, are the root followed by exactly the named rows of the sheet in sheet order *)
+Require Import PX.Model.Dom PX.Spec.XmlParse PX.Spec.XmlName PX.Spec.Shape PX.Proofs.Doc PX.Proofs.Convert.
+Theorem C04_rows_to_parsed_instance : forall rows ts root_name,
+  Nest rows ts -> Forall xname (enames (survey_tree root_name ts)) ->
+  parse_rows rows = POk ts /\
+  exists x, parse (instance_doc root_name ts) = Some x /\
+            xshape x = Sh s_instance [] [ishape (inst false (survey_tree root_name ts))].
+Proof. exact rows_to_parsed_instance. Qed.
+Print Assumptions C04_rows_to_parsed_instance.
+Theorem C04_live_instance_is_the_sheet : forall rows ts root_name, Nest rows ts ->
+  map (fun p => last p []) (ipaths_live [] (inst false (survey_tree root_name ts))) = root_name :: row_names rows.
+Proof. exact live_instance_is_the_sheet. Qed.
+Print Assumptions C04_live_instance_is_the_sheet.
